@@ -58,7 +58,7 @@ static void call_end(const char *params)
     }
 }
 
-static uint8_t SEC[200000], OUT[200000], TW[200000];
+static uint8_t SEC[700000] __attribute__((aligned(64))), OUT[700000] __attribute__((aligned(64))), TW[200000] __attribute__((aligned(64)));
 
 static void case_plain(uint64_t k, vh_rng *r)
 {
@@ -126,6 +126,8 @@ static void case_ctr(uint64_t k, vh_rng *r)
     unsigned clen = (unsigned)((q / 7) % (c->bb + 1)), tlen = c->id == CIPH_MANTIS ? 8 : 1 + (unsigned)((q / 5) % c->bb);
     unsigned total = (unsigned)((q * 7) % 201), nsplit = 1 + (unsigned)(q % 4), i, done = 0;
     if (q % 61 == 17) total = 66000 + (unsigned)(q % 5000);          /* requests of 64 KiB and more take other paths in some implementations */
+    if (q % 307 == 33) total = 530000 + (unsigned)(q % 60000);       /* ... and of 512 KiB and more */
+    if (total > 60000 && (q & 1)) nsplit = 1;                         /* one aligned call from a batch boundary */
     vh_handle h; char params[128]; const char *ben = vh_backend_names[be], *fn[6];
     static char fnb[6][48];
     static const char *const suf[6] = {"ctr_init", "ctr_set_key", "ctr_set_tweak", "ctr_set_counter", "ctr_encrypt", "ctr_cleanup"};
